@@ -1042,6 +1042,48 @@ def _short(s, n=160):
     return s if len(s) <= n else s[:n] + '...'
 
 
+def _tokenizer_trim(t):
+    """tokenizer.rs handle_a2ml: trailing blanks of the A2ML text and one line end before them are not part of the text"""
+    i = len(t)
+    while i > 0 and t[i - 1] in ' \t\x0b\x0c':
+        i -= 1
+    if i >= 2 and t[i - 2:i] == '\r\n':
+        i -= 2
+    elif i >= 1 and t[i - 1] == '\n':
+        i -= 1
+    return t[:i]
+
+
+def a2ml_trailing_blank(files):
+    """True when some A2ML block of the case ends in an include directive and the text merged by the library (expansion of
+    the trimmed block text) differs from the trimmed expansion of the untrimmed text only in trailing whitespace."""
+    for name, text in files.items():
+        if not isinstance(text, str) or name.endswith('/'):
+            continue
+        try:
+            toks = scan(text)
+        except Exception:
+            continue
+        for t in toks:
+            if t.kind != 'a2ml':
+                continue
+            end = _a2ml_end(text, t.s)
+            raw = text[t.s:end]
+            tmp = dict(files)
+            try:
+                tmp['\0blk'] = None
+                key = posixpath.join(posixpath.dirname(name), '\0a2mlblock')
+                tmp[key] = _tokenizer_trim(raw)
+                merged = flatten(tmp, key, (), True)
+                tmp[key] = raw
+                flat = _tokenizer_trim(flatten(tmp, key, (), True))
+            except Exception:
+                continue
+            if merged != flat and merged.rstrip() == flat.rstrip():
+                return True
+    return False
+
+
 def problems(case, ans):
     """[(tag, detail)]: every way in which the answer contradicts the property statement.
 
@@ -1094,6 +1136,7 @@ def problems(case, ans):
             out.append(('load-err', '(no flattened text to compare) %s/%s: %s' % (_t(ans[1]), _t(ans[3]), _short(ans[2]))))
         return out
     dump, diags, text1, rel, mrg, flt = ans[1:7]
+    a2ml_unparsed = [_t(d) for d in diags if 'A2ML parser reports' in _t(d) or 'A2mlError' in _t(d)]
     # transparency
     if flt:
         fs = _t(flt[0])
@@ -1107,6 +1150,13 @@ def problems(case, ans):
                 if a2ml and eqm:
                     out.append(('a2ml-text', 'model != model of the flattened text until merge_includes() is applied '
                                              '(A2ML text keeps the directive)'))
+                elif a2ml and a2ml_unparsed:
+                    out.append(('a2ml-unparsed', 'the A2ML text with its include is rejected by the A2ML parser (%s): there is no '
+                                                 'merged form, the directive stays in the text' % _short(a2ml_unparsed[0], 100)))
+                elif a2ml and a2ml_trailing_blank(case.get('files', {})):
+                    out.append(('a2ml-trailing-blank', 'A2ML include at the very end of the A2ML block: the merged text keeps the '
+                                                       'trailing whitespace of the include file, which the tokenizer trims from '
+                                                       'the flattened text'))
                 else:
                     out.append(('not-transparent', 'model differs from the model of the flattened text'
                                 + ('' if not eqm else ' (equal after merge_includes)')))
@@ -1135,7 +1185,10 @@ def problems(case, ans):
         if not left and contains:
             # "/include" may be part of a string of the document; look at the A2ML text separately
             left = any(i.a2ml for i in find_includes(mtext))
-        if left:
+        if left and a2ml and a2ml_unparsed:
+            if not any(t == 'a2ml-unparsed' for t, _ in out):
+                out.append(('a2ml-unparsed', 'the A2ML text is rejected by the A2ML parser: merge_includes() leaves its directive'))
+        elif left:
             out.append(('merged-include', 'output of merge_includes() still contains an include directive'))
         if not eq_merged:
             out.append(('merged-model', 'output of merge_includes() loads to a model different from the merged model'))
